@@ -8,7 +8,8 @@ U64_MAX = G.U64_MAX
 OPN = {0: "clock", 1: "deposit", 2: "withdraw", 3: "borrow", 4: "repay", 7: "close_balance", 10: "accrue",
        16: "collect_fees", 17: "liquidate", 18: "bankruptcy", 19: "set_price",
        30: "fixture_risk_admin", 31: "fixture_bank_flags",
-       32: "collect_fees_foreign_ata", 34: "borrow_without_risk_accounts", 35: "withdraw_without_risk_accounts"}
+       32: "collect_fees_foreign_ata", 33: "fixture_account_flags", 34: "borrow_without_risk_accounts", 35: "withdraw_without_risk_accounts",
+       36: "close_bank_probe"}
 HB_EXTRA = 13  # tokens after the 38 bankops tokens, before e-mode entries
 
 
@@ -177,9 +178,107 @@ def gen_case_random(rng, max_ops=26, kind="mixed"):
 
 
 def gen_case(rng, max_ops=26, kind="mixed"):
-    if rng.random() < 0.3:
+    r = rng.random()
+    if r < 0.3:
         return gen_case_random(rng, max_ops, kind)
+    if r < 0.34:
+        return gen_close_case(rng)
     return gen_case_scenario(rng, max_ops)
+
+
+def gen_close_case(rng):
+    """closing a bank: a close-enabled bank with a non-trivial share value, a big depositor and a second one who empties
+    its position with an exact partial withdrawal (leaving dust shares) and then withdraws 'all'; the admin asks to close
+    the bank (op 36, a probe) after every step. The position counters and the totals must both protect the depositors."""
+    nb, na = 2, 3
+    now = 1_700_000_000 + rng.randrange(0, 10 ** 7)
+    pf = [rng.randrange(2), G.fx(Fraction(rng.randrange(0, 200), 10000)), G.fx(Fraction(rng.randrange(0, 500), 10000))]
+    banks = []
+    for _ in range(nb):
+        t, _i = gen_hbank(rng, now, "plain")
+        t[8] = t[9] = U64_MAX
+        t[12] = rng.choice([16, 16, 16, 0, 16 | 4])
+        t[17] = 1
+        t[10] = 0
+        asv = rng.choice([ONE, 3 * ONE // 2, ONE + 12345, fxr(Fraction(150006, 100000)), ONE + rng.randrange(1, ONE)])
+        t[0] = asv
+        t[1] = max(t[1], asv)
+        banks.append(t)
+    bx = 0
+    big = rng.choice([10 ** 6, 10 ** 9])
+    a = rng.choice([1, 2, 3, 1000, 10 ** 6 + 1])
+    ops = [[36, bx], [1, 0, bx, big, 0], [36, bx], [1, 1, bx, a, 0]]
+    m = rng.random()
+    if m < 0.65:
+        # a borrower takes a large part, a little time passes (the second depositor's position becomes worth a hair more
+        # than the whole tokens it deposited), the borrower repays everything
+        a = rng.choice([1, 2, 3, 7])
+        ops[3] = [1, 1, bx, a, 0]
+        if rng.random() < 0.7:
+            # engineered so that the second depositor's dust is below 0.0001 SHARES but above 0.0001 TOKENS: a flat curve
+            # without fees whose rate puts the accrued interest on `a` tokens in the window (1e-4, asv * 1e-4)
+            asv_f = rng.choice([Fraction(3, 2), Fraction(2), Fraction(3), Fraction(5, 4)])
+            banks[0][0] = int(asv_f * ONE)
+            banks[0][1] = max(banks[0][1], banks[0][0])
+            big = rng.choice([10 ** 6, 10 ** 9])
+            ops[1] = [1, 0, bx, big, 0]
+            dt = rng.choice([600, 3600, 86400])
+            borrow = big // 2
+            util = Fraction(borrow, big + a)
+            rho = Fraction(1, 10 ** 4) * (1 + asv_f) / 2
+            R = rho / a * G.YEAR / (util * dt)
+            z = min(G.U32 if hasattr(G, "U32") else (1 << 32) - 1, int(R / 10 * ((1 << 32) - 1)))
+            banks[0][18:18 + 20] = [1, 0, 0, 0, 0, 0, 0, 0, z, z] + [0, 0] * 5
+            pf = [0, 0, 0]
+            banks[0][G.BANK_TOKS + 10] = 0      # no origination fee
+            B = G.BANK_TOKS
+            banks[1][B + 0] = banks[1][B + 1] = ONE
+            banks[1][B + 4] = 0
+            banks[1][B + 6] = ONE
+            banks[1][11] = banks[0][11]
+            banks[0][B + 4] = 0
+            ops += [[1, 2, 1, 10 ** 15, 0], [3, 2, bx, borrow], [0, now + dt], [10, bx], [4, 2, bx, 0, 1],
+                    [2, 1, bx, a, 0], [36, bx], [2, 1, bx, 0, 1], [36, bx]]
+            now += dt
+            if rng.random() < 0.5:
+                ops += [[2, 0, bx, 0, 1], [36, bx]]
+            toks = [nb, na] + pf + [banks[0][7]]
+            for bk in banks:
+                toks += bk
+            toks.append(len(ops))
+            for o in ops:
+                toks += clamp_op(o)
+            return " ".join(map(str, toks))
+        B = G.BANK_TOKS
+        banks[1][B + 0] = banks[1][B + 1] = ONE          # collateral bank: full weight, collateral tier, $1
+        banks[1][B + 4] = 0
+        banks[1][B + 6] = ONE
+        banks[1][11] = banks[0][11]
+        banks[0][B + 4] = 0
+        ops += [[1, 2, 1, 10 ** 15, 0], [3, 2, bx, max(1, big // rng.choice([2, 3, 10]))]]
+        now += rng.choice([60, 600, 3600, 3600, 86400])
+        ops += [[0, now], [10, bx], [4, 2, bx, 0, 1]]
+    elif m < 0.8:
+        # a small borrower stays (funds the other side of the guard)
+        ops += [[1, 2, 1, 10 ** 9, 0], [3, 2, bx, rng.choice([1, 10])]]
+        if rng.random() < 0.5:
+            now += rng.choice([3600, 86400 * 30])
+            ops += [[0, now], [10, bx]]
+    w = rng.choice([a, a, a, max(1, a - 1)])
+    ops += [[2, 1, bx, w, 0], [36, bx], [2, 1, bx, 0, 1], [36, bx]]
+    if rng.random() < 0.5:
+        ops += [[7, 1, bx], [36, bx]]
+    if rng.random() < 0.6:
+        ops += [[2, 0, bx, 0, 1], [36, bx]]
+    if rng.random() < 0.3:
+        ops += [[1, 0, bx, 5, 0], [36, bx]]
+    toks = [nb, na] + pf + [banks[0][7]]
+    for bk in banks:
+        toks += bk
+    toks.append(len(ops))
+    for o in ops:
+        toks += clamp_op(o)
+    return " ".join(map(str, toks))
 
 
 def gen_case_scenario(rng, max_ops=26):
@@ -261,6 +360,8 @@ def gen_case_scenario(rng, max_ops=26):
             ops.append([2, a, c, rng.choice([1, max(1, camt // 10), max(1, camt // 2), camt]), allf])
         elif r < 0.86:
             ops.append([16, rng.randrange(nb)])
+            if rng.random() < 0.2:
+                ops.append([36, rng.randrange(nb)])
         elif r < 0.92:
             ops.append([1, a, rng.randrange(nb), G.gen_amount(rng) % (1 << 61), rng.randrange(2)])
         elif r < 0.96:
@@ -278,6 +379,25 @@ def gen_case_scenario(rng, max_ops=26):
                 ops.append([30, 255])
             if rng.random() < 0.5:
                 ops.append([2, 0, d, rng.choice([1, big // 2, big]), rng.randrange(2)])
+        elif r < 0.993:
+            # a sunset bank (token-less repayments allowed) and an account in receivership whose debt is repaid in full by
+            # its authority, who is NOT the risk admin: the tokens must still be paid
+            ops.append([31, d, banks[d][12] | 32])
+            ops.append([33, a, rng.choice([16, 16, 16 | 32])])
+            ops.append([4, a, d, rng.choice([1, bamt]), 1 if rng.random() < 0.85 else 0])
+            ops.append([33, a, 0])
+        elif r < 0.996:
+            # position counters versus totals: a second depositor empties its position with an exact partial withdrawal and
+            # then withdraws "all" of the dust; the admin then asks to close the (close-enabled) bank
+            bx = rng.randrange(nb)
+            ops.append([31, bx, banks[bx][12] | 16])
+            aa = rng.randrange(1, na) if na > 1 else 0
+            amt = rng.choice([1, 3, 1000, 10 ** 6 + 1])
+            ops.append([1, 0, bx, rng.choice([10 ** 6, 10 ** 9]), 0])
+            ops.append([1, aa, bx, amt, 0])
+            ops.append([2, aa, bx, amt, 0])
+            ops.append([2, aa, bx, 0, 1])
+            ops.append([36, bx])
         else:
             # open a position, empty it with an exact partial withdrawal, let time pass, close the balance
             bx = rng.randrange(nb)
@@ -297,8 +417,62 @@ def gen_case_scenario(rng, max_ops=26):
     return " ".join(map(str, toks))
 
 
+
+def gen_tokenless_case(rng):
+    """the risk admin's token-less repayment (sunset banks): a borrower with a debt in a bank flagged
+    TOKENLESS_REPAYMENTS_ALLOWED repays everything; who signs (the risk admin or not), whether the account is in
+    receivership, and the order of the fixtures vary. Only the risk admin's repay_all may skip the token transfer."""
+    nb, na = 2, 3
+    now = 1_700_000_000 + rng.randrange(0, 10 ** 7)
+    pf = [rng.randrange(2), G.fx(Fraction(rng.randrange(0, 200), 10000)), G.fx(Fraction(rng.randrange(0, 500), 10000))]
+    banks = []
+    B = G.BANK_TOKS
+    for k in range(nb):
+        t, _i = gen_hbank(rng, now, "plain")
+        t[8] = t[9] = U64_MAX
+        t[12] = 0
+        t[17] = 1
+        t[10] = 0
+        t[B + 0] = t[B + 1] = ONE
+        t[B + 4] = 0
+        t[B + 6] = ONE
+        t[11] = 6
+        t[B + 7] = rng.choice([0, 0, 1, 2])
+        banks.append(t)
+    c, d = 0, 1
+    debt = rng.choice([1, 1000, 10 ** 6, 10 ** 9])
+    ops = [[1, 0, d, 10 ** 12, 0], [1, 1, c, 10 ** 13, 0], [3, 1, d, debt]]
+    if rng.random() < 0.4:
+        now += rng.choice([3600, 86400 * 30])
+        ops += [[0, now], [10, d]]
+    ops.append([31, d, 32 | rng.choice([0, 0, 16])])
+    v = rng.choice(["admin", "admin", "owner", "owner", "receivership", "receivership", "admin_then_reset", "other_admin"])
+    allf = 1 if rng.random() < 0.85 else 0
+    if v == "admin":
+        ops += [[30, 1]]
+    elif v == "receivership":
+        ops += [[33, 1, rng.choice([16, 16 | 32])]]
+    elif v == "admin_then_reset":
+        ops += [[30, 1], [30, 255]]
+    elif v == "other_admin":
+        ops += [[30, 2]]
+    ops.append([4, 1, d, rng.choice([1, debt, debt + 5]), allf])
+    if v == "receivership":
+        ops.append([33, 1, 0])
+    if rng.random() < 0.5:
+        ops.append([4, 1, d, debt, 1])
+    if rng.random() < 0.5:
+        ops.append([2, 0, d, rng.choice([1, 10 ** 6, 10 ** 12]), rng.randrange(2)])
+    toks = [nb, na] + pf + [banks[0][7]]
+    for bk in banks:
+        toks += bk
+    toks.append(len(ops))
+    for o in ops:
+        toks += clamp_op(o)
+    return " ".join(map(str, toks))
+
 # ---------------------------------------------------------------------------------------------
-OPLEN = {0: 2, 1: 5, 2: 5, 3: 4, 4: 5, 7: 3, 10: 2, 16: 2, 17: 6, 18: 3, 19: 3, 30: 2, 31: 3, 32: 3, 34: 4, 35: 5}
+OPLEN = {0: 2, 1: 5, 2: 5, 3: 4, 4: 5, 7: 3, 10: 2, 16: 2, 17: 6, 18: 3, 19: 3, 30: 2, 31: 3, 32: 3, 33: 3, 34: 4, 35: 5, 36: 2}
 
 
 def parse_case(line):
